@@ -1044,7 +1044,11 @@ fn circuit_exp_by_constant<EF: Field>(
     base: Target,
     n: usize,
 ) -> Target {
-    debug_assert!(n > 0);
+    // `base^0 = 1`, as in the native verifier: a height group whose matrices all have width
+    // zero reaches this with `n = 0`.
+    if n == 0 {
+        return builder.define_const(EF::ONE);
+    }
     if n == 1 {
         return base;
     }
